@@ -1,0 +1,14 @@
+//go:build verif
+
+// Contracts for package args, read by /verif/bin/gvc (contract-based deductive verification).
+// This file contains comments only; it is compiled only under the build tag "verif".
+package args
+
+//@ func splitVar
+//@   sweep                                                          [C16]
+//@   pure allocates
+//@   requires strContains(s, "=")
+//@ func Parse
+//@   sweep                                                          [C16]
+//@ func Get
+//@   sweep                                                          [C16]
